@@ -427,6 +427,13 @@ def storeStep (st : DState) (ws : List String) : Option (DState × String) :=
     match getReg st r, parseName pre with
     | some x, some pre => some (st, joinOr "," ((x.scan pre).map showName))
     | _, _ => none
+  | ["rt_evict", r, keys] =>
+    match getReg st r with
+    | some x =>
+      match (if keys = "-" then some [] else (keys.splitOn ",").mapM parseName) with
+      | some ks => some (setReg st r (x.apply (.evict ks)), "ok")
+      | none => none
+    | none => none
   | ["rt_clear", r] =>
     match getReg st r with
     | some x => some (setReg st r x.clear, "ok")
